@@ -7,17 +7,26 @@
      root_ok d lb root  — Hlb: for every node entry (rect, subtree) of the R-tree and every item
                           under that subtree, lb rect <= d item  (R-tree containment invariant +
                           monotonicity of the geodesic point-to-rectangle bound, in floating point)
-     forall i, 0 <= d i — distances are not negative (the root enters the queue with key 0) *)
+     forall i, 0 <= d i — distances are not negative (the root enters the queue with key 0)
+     queue_ok qpush qpop — the queue discipline: push adds the entry, pop returns an entry of minimal
+                          key and leaves the others.  Proved for the list queue (c13_list_queue);
+                          for the transcribed binary heap (heap_push / heap_pop) it is the statement
+                          "the library's heap is a correct min-queue": trusted, sampled by the harness.
+   No theorem depends on the order inside a group of equal keys: they hold for every such queue. *)
 From Coq Require Import List NArith ZArith Sorted Permutation Lia.
 From T38 Require Import Model.Cursor Model.Knn Proofs.CursorProofs Proofs.KnnProofs.
 Import ListNotations.
 
 (* The traversal terminates within its fuel, emits every indexed item exactly once (a permutation
    of the items), reports for each its own distance, in non-decreasing order.  All trees. *)
-Theorem c13_sorted : forall (I R : Type) (d : I -> Z) (lb : R -> Z),
-  (forall i, (0 <= d i)%Z) ->
+Theorem c13_list_queue : forall (I R : Type), @queue_ok I R list_push pop_min.
+Proof. exact @list_queue_ok. Qed.
+Print Assumptions c13_list_queue.
+
+Theorem c13_sorted : forall (I R : Type) (d : I -> Z) (lb : R -> Z) qpush qpop,
+  queue_ok qpush qpop -> (forall i, (0 <= d i)%Z) ->
   forall root : option (@tree I R), root_ok d lb root ->
-  exists l, knn d lb root = Done l /\
+  exists l, knn d lb qpush qpop root = Done l /\
             Permutation (map fst l) (root_items root) /\
             emitted_ok d l /\ dist_sorted l.
 Proof. exact @knn_sorted. Qed.
@@ -26,10 +35,10 @@ Print Assumptions c13_sorted.
 (* One NEARBY request (Collection.Nearby's cursor skeleton + cmdNearby's radius cut + pushObject,
    run as the traversal's iterator) is the C11 page function over that order: every C11 theorem
    (complete duplicate-free pagination, exact LIMIT) applies to NEARBY with any filter. *)
-Theorem c13_query_is_page : forall (I R : Type) (d : I -> Z) (lb : R -> Z) test
+Theorem c13_query_is_page : forall (I R : Type) (d : I -> Z) (lb : R -> Z) qpush qpop test
     (root : option (@tree I R)) max_dist cursor limit l,
-  knn d lb root = Done l ->
-  nearby_query d lb test root max_dist cursor limit =
+  knn d lb qpush qpop root = Done l ->
+  nearby_query d lb qpush qpop test root max_dist cursor limit =
   Done (page test (radius_stop max_dist) l cursor limit).
 Proof. exact @nearby_query_page. Qed.
 Print Assumptions c13_query_is_page.
@@ -38,11 +47,12 @@ Print Assumptions c13_query_is_page.
    non-decreasing distance, and no item left out is closer than any item returned. *)
 Theorem c13_k_closest : forall (I R : Type) (d : I -> Z) (lb : R -> Z),
   (forall i, (0 <= d i)%Z) ->
+  forall qpush qpop, queue_ok qpush qpop ->
   forall (root : option (@tree I R)) k max_dist,
   root_ok d lb root -> (1 <= k)%N -> (max_dist <= 0)%Z ->
   exists l res c,
-    knn d lb root = Done l /\
-    nearby_query d lb (fun _ => true) root max_dist 0 k = Done (res, c) /\
+    knn d lb qpush qpop root = Done l /\
+    nearby_query d lb qpush qpop (fun _ => true) root max_dist 0 k = Done (res, c) /\
     Permutation (map fst l) (root_items root) /\ emitted_ok d l /\
     res = firstn (N.to_nat k) l /\
     dist_sorted res /\
@@ -55,15 +65,16 @@ Print Assumptions c13_k_closest.
    distance order; a single request with a LIMIT above the item count returns them with cursor 0. *)
 Theorem c13_radius : forall (I R : Type) (d : I -> Z) (lb : R -> Z),
   (forall i, (0 <= d i)%Z) ->
+  forall qpush qpop, queue_ok qpush qpop ->
   forall (root : option (@tree I R)) r limit,
   root_ok d lb root -> (0 < r)%Z ->
   exists l,
-    knn d lb root = Done l /\
+    knn d lb qpush qpop root = Done l /\
     unlimited (fun _ => true) (radius_stop r) l = filter (fun e => (snd e <=? r)%Z) l /\
     Permutation (map fst (unlimited (fun _ => true) (radius_stop r) l))
                 (filter (fun i => (d i <=? r)%Z) (root_items root)) /\
     ((N.of_nat (length l) < limit)%N ->
-     nearby_query d lb (fun _ => true) root r 0 limit =
+     nearby_query d lb qpush qpop (fun _ => true) root r 0 limit =
      Done (filter (fun e => (snd e <=? r)%Z) l, 0%N)).
 Proof. exact @radius_exact. Qed.
 Print Assumptions c13_radius.
@@ -75,11 +86,11 @@ Definition ex_tree : @tree Z Z :=
 
 Example c13_nonvacuous :
   root_ok (fun i : Z => i) (fun r : Z => r) (Some ex_tree) /\
-  knn (fun i : Z => i) (fun r : Z => r) (Some ex_tree) =
+  knn (fun i : Z => i) (fun r : Z => r) list_push pop_min (Some ex_tree) =
     Done [(1, 1); (2, 2); (3, 3); (3, 3); (5, 5); (7, 7); (9, 9)]%Z /\
-  nearby_query (fun i : Z => i) (fun r : Z => r) (fun _ => true) (Some ex_tree) 4 0 10 =
+  nearby_query (fun i : Z => i) (fun r : Z => r) list_push pop_min (fun _ => true) (Some ex_tree) 4 0 10 =
     Done ([(1, 1); (2, 2); (3, 3); (3, 3)]%Z, 0%N) /\
-  nearby_query (fun i : Z => i) (fun r : Z => r) (fun _ => true) (Some ex_tree) 0 2 3 =
+  nearby_query (fun i : Z => i) (fun r : Z => r) list_push pop_min (fun _ => true) (Some ex_tree) 0 2 3 =
     Done ([(3, 3); (3, 3); (5, 5)]%Z, 5%N).
 Proof.
   split; [|vm_compute; repeat split].
@@ -87,6 +98,13 @@ Proof.
   repeat (first [apply lb_leaf | apply lb_node | constructor | split
                 | (cbn; intros i Hi; repeat (destruct Hi as [<-|Hi]; [lia|]); destruct Hi)]).
 Qed.
+
+(* the transcribed binary heap on the same tree: the same distance sequence (the two items at
+   distance 3 may come in either order) *)
+Example c13_heap_nonvacuous :
+  knn (fun i : Z => i) (fun r : Z => r) heap_push heap_pop (Some ex_tree) =
+    Done [(1, 1); (2, 2); (3, 3); (3, 3); (5, 5); (7, 7); (9, 9)]%Z.
+Proof. vm_compute. reflexivity. Qed.
 
 (* Known finding C13-rounding-noise (open): the hypothesis root_ok cannot be dropped, and the real
    distance function violates it by floating-point rounding (two formulas for the same quantity):
@@ -96,7 +114,7 @@ Qed.
    server's heap needs only a tie, the model's first-minimum pop needs one step more), other item at 5. *)
 Theorem c13_order_without_hlb_refuted :
   exists (d lb : Z -> Z) (root : option (@tree Z Z)) l,
-    (forall i, (0 <= d i)%Z) /\ knn d lb root = Done l /\ ~ dist_sorted l.
+    (forall i, (0 <= d i)%Z) /\ knn d lb list_push pop_min root = Done l /\ ~ dist_sorted l.
 Proof.
   exists (fun i => Z.abs i), (fun r => r),
          (Some (Node [(6%Z, Leaf [(0%Z, 4%Z)]); (5%Z, Leaf [(0%Z, 5%Z)])])), [(5, 5); (4, 4)]%Z.
